@@ -440,6 +440,13 @@ def run(ctx):
     shared.affected_walk_stops(ctx, r9)
     shared.affected_tasks_cover_completed(ctx, r9)
 
+    # ---- R11 the lock primitives the create-once rule relies on ------------------
+    r11 = ctx.rule('R11', 'named_lock inserts a uniquely named row at once, '
+                   'holds it for the body and deletes that row; '
+                   'acquire_lock re-reads FOR UPDATE', 'GD/PAIR')
+    from mstatic.rules import txqueue
+    txqueue.lock_primitives(ctx, r11)
+
     # ---- R10 decision tables of the join logic ----------------------------------
     r10 = ctx.rule('R10', 'the join verdict (start / wait / fail) computed '
                    'from the inbound tasks is the prescribed one for every '
